@@ -303,7 +303,35 @@ void NTT_Goldilocks::reversePermutation(Goldilocks::Element *dst, Goldilocks::El
         }
         else
         {
-            assert(0); // Option not implemented yet
+            // in-place bit reversal with zero extension: only the first size / extension rows hold
+            // data, every other row counts as zero. Rows i and r = BR(i) exchange their (extended)
+            // contents; as above each pair is handled once, by its larger member.
+            assert(offset_cols == 0 && ncols == ncols_all); // single block
+            u_int64_t nrows_in = size / extension;
+#pragma omp parallel for schedule(static)
+            for (u_int64_t i = 0; i < size; i++)
+            {
+                u_int64_t r = BR(i, domainSize);
+                u_int64_t offset_r = r * ncols;
+                u_int64_t offset_i = i * ncols;
+                if (r < i)
+                {
+                    Goldilocks::Element tmp[ncols];
+                    if (r < nrows_in)
+                        std::memcpy(&tmp[0], &src[offset_r], ncols * sizeof(Goldilocks::Element));
+                    else
+                        std::memset(&tmp[0], 0, ncols * sizeof(Goldilocks::Element));
+                    if (i < nrows_in)
+                        std::memcpy(&dst[offset_r], &src[offset_i], ncols * sizeof(Goldilocks::Element));
+                    else
+                        std::memset(&dst[offset_r], 0, ncols * sizeof(Goldilocks::Element));
+                    std::memcpy(&dst[offset_i], &tmp[0], ncols * sizeof(Goldilocks::Element));
+                }
+                else if (r == i && i >= nrows_in)
+                {
+                    std::memset(&dst[offset_i], 0, ncols * sizeof(Goldilocks::Element));
+                }
+            }
         }
     }
 }
